@@ -133,6 +133,7 @@ class NakPdu(AbstractFileDirectiveBase):
             directive_param_field_len=8,
             pdu_conf=pdu_conf,
         )
+        self._segment_requests: List[Tuple[int, int]] = []
         # Calling this will also update the directive parameter field length
         self.segment_requests = segment_requests
         self.start_of_scope = start_of_scope
@@ -168,8 +169,14 @@ class NakPdu(AbstractFileDirectiveBase):
     def file_flag(self, file_flag: LargeFileFlag):
         """Set the file size. This changes the length of the packet when packed as well
         which is handled by this function"""
+        old_file_flag = self.pdu_file_directive.file_flag
         self.pdu_file_directive.file_flag = file_flag
-        self._calculate_directive_field_len()
+        try:
+            self._calculate_directive_field_len()
+        except ValueError:
+            # Invalid flag, or too large for the PDU data field length: the PDU stays as it was
+            self.pdu_file_directive.file_flag = old_file_flag
+            raise
 
     def _calculate_directive_field_len(self):
         if self.pdu_file_directive.file_flag == LargeFileFlag.NORMAL:
@@ -194,11 +201,17 @@ class NakPdu(AbstractFileDirectiveBase):
     def segment_requests(self, segment_requests: Optional[List[Tuple[int, int]]]):
         """Update the segment requests. This changes the length of the packet when packed as well
         which is handled by this function."""
+        old_segment_requests = self._segment_requests
         if segment_requests is None:
             self._segment_requests = []
         else:
             self._segment_requests: List[Tuple[int, int]] = segment_requests  # type: ignore
-        self._calculate_directive_field_len()
+        try:
+            self._calculate_directive_field_len()
+        except ValueError:
+            # Too large for the PDU data field length: the PDU stays as it was
+            self._segment_requests = old_segment_requests
+            raise
 
     def pack(self) -> bytearray:
         """Pack the NAK PDU.
